@@ -643,6 +643,28 @@ impl Fq {
     }
 }
 
+/// Verification hook H6: unchanged wrapper of the private const
+/// `montgomery_reduce` and raw-limb access, so that an out-of-tree checker can
+/// replay solver counterexamples against the real functions. Add-only,
+/// compiled only with the `verif-hooks` feature.
+#[cfg(feature = "verif-hooks")]
+impl Fq {
+    /// Calls the private `montgomery_reduce` unchanged.
+    pub fn verif_montgomery_reduce(r: [u64; 8]) -> Fq {
+        Fq::montgomery_reduce(r[0], r[1], r[2], r[3], r[4], r[5], r[6], r[7])
+    }
+
+    /// Returns the raw (Montgomery-form) limbs.
+    pub fn verif_limbs(&self) -> [u64; 4] {
+        self.0.l
+    }
+
+    /// Calls the module-private const `sub` unchanged.
+    pub fn verif_sub(lhs: &[u64; 4], rhs: &[u64; 4]) -> [u64; 4] {
+        sub(lhs, rhs)
+    }
+}
+
 #[cfg(not(target_pointer_width = "64"))]
 type ReprBits = [u32; 8];
 
